@@ -44,7 +44,11 @@ type cloner struct {
 }
 
 func (c cloner) Clone(src, dst interface{}) error {
-	c.marshaller.Bind(src)
-	c.unmarshaller.Bind(dst)
+	if err := c.marshaller.Bind(src); err != nil {
+		return err
+	}
+	if err := c.unmarshaller.Bind(dst); err != nil {
+		return err
+	}
 	return c.pump.Run()
 }
